@@ -276,6 +276,46 @@ func c09CheckImage(img, scratch []byte, hb []byte) (sig, what string) {
 	if !bytes.Equal(other, oscr) {
 		return "unexplained:image-changed", fmt.Sprintf("Contents replaced by another image; ReadHeader; WriteHeader changed that image at file offset $%06x", firstDiff(other, oscr))
 	}
+	// the parsed header written into OTHER ROM objects (romB.Header = romA.Header; romB.WriteHeader()): which of
+	// the 80 bytes WriteHeader stores is found out with two blank images (all $00 / all $FF there); an image
+	// of another revision, differing in the first 16 header bytes or in the title, must then hold exactly
+	// those bytes and keep the rest
+	blank := func(fill byte, from, to int) ([]byte, *snes.ROM, error) {
+		b := append([]byte(nil), other...)
+		for i := from; i < to; i++ {
+			b[0x7FB0+i] = other[0x7FB0+i] ^ fill
+		}
+		rb, err := snes.NewROM("b", b)
+		if err != nil {
+			return nil, nil, err
+		}
+		rb.Header = rom.Header
+		return b, rb, rb.WriteHeader()
+	}
+	c0, _, e0 := blank(0xFF, 0, 0x50)
+	c1, _, e1 := blank(0xA5, 0, 0x50)
+	if e0 != nil || e1 != nil {
+		return "unexplained:rom-write-error", fmt.Sprint(e0, e1)
+	}
+	for _, span := range [][2]int{{0, 0x10}, {0x10, 0x25}, {0x05, 0x0E}} {
+		bimg, _, eb := blank(0x5A, span[0], span[1])
+		if eb != nil {
+			return "unexplained:rom-write-error", eb.Error()
+		}
+		for i := 0; i < 0x50; i++ {
+			written := c0[0x7FB0+i] == c1[0x7FB0+i]
+			want := other[0x7FB0+i]
+			if !written && i >= span[0] && i < span[1] {
+				want ^= 0x5A // WriteHeader does not store this byte (version-1 header): the image keeps its own
+			}
+			if written {
+				want = c0[0x7FB0+i]
+			}
+			if bimg[0x7FB0+i] != want {
+				return "unexplained:header-written-into-another-image", fmt.Sprintf("a parsed header written into another ROM whose image differs in header bytes $%02x..$%02x: byte $%02x of the header is $%02x afterwards, want $%02x (written into a blank image it is $%02x)", span[0], span[1]-1, i, bimg[0x7FB0+i], want, c0[0x7FB0+i])
+			}
+		}
+	}
 	return "", ""
 }
 
